@@ -71,6 +71,17 @@ which checks report it.
   ANALYSIS-ERROR only (R20.6 lost one of its array-creation anchors).  R20.14 now asks, for every divisor of the threshold term whose interval
   under the validator's constraints contains 0, that the attribute holding it is assigned from an array constructor (Python number:
   VIOLATION; unrecognised: undecided).
+* Seventh wave (ten seeds, all asked to look like performance work, modernisation, hardening or re-organisation), three first-evaluation
+  misses.  (i) `max_demand = m * max(Qa, Qb + 2)` for `m * (max(Qa, Qb) + 2)` in Hendrix - **silent**: the only rule that looks at the truncation
+  is R13.1, whose two open sites are the recorded finding D5, and the finding was keyed by call site only, so a *worse* truncation hid behind it.
+  The truncation point (as a normalised term) is now part of the finding's identity: the recorded entries name today's point, a moved point is a
+  new, unlisted violation.  (ii) the matrix builder memoised on the problem instance (`if self._matrices is not None: return self._matrices`),
+  ignoring the tolerance, so a second call with a stricter tolerance no longer raises - ANALYSIS-ERROR only (the interpreter took the early
+  return): C17 now decides the term rules for a first call and R17.3 reports the return that bypasses this call's row-sum check.  (iii) the choice
+  of the initial policy by `"initial_policy" in vars(type(self.problem))` instead of try / except NotImplementedError (misses inherited and
+  instance-level policies) - ANALYSIS-ERROR only (a count floor raised after the failing instance had been filed): count floors no longer hide
+  failures already decided, and R5.5 reports one-namespace tests (`vars(..)`, `__dict__`) and always-true tests (`hasattr`) specifically, any
+  other protocol being undecided.
 * Two **genuine defects** surfaced while generalising rules for this wave, both on the unchanged tree: D7 (stored policy of the
   value-iteration family is not restored; known finding, section 10.4) and D8 (RVI's gain starts at 0 instead of the reference
   state's initial value; my own R4.2 had encoded the defect as the expected shape - it was reworded, R4.5 added, and the defect
